@@ -313,6 +313,8 @@ def load_performance_midi(
             )
         for meta in pp.meta_other:
             meta["time"] = adjust_time(meta["time_tick"], tempo_changes, ppq)
+        # sound_off was computed from the provisional times: recompute it
+        pp.sustain_pedal_threshold = pp.sustain_pedal_threshold
 
     perf = performance.Performance(
         id=doc_name,
